@@ -174,7 +174,13 @@ impl MarkdownWriter {
                 }
                 GraphInline::Link(url, title, t, inlines) => {
                     let text = inlines_to_markdown(&inlines, &self.options);
-                    if !is_ref_url(&url) && text.eq_ignore_ascii_case(&url) {
+                    // the cmark serializer prints wiki links as `[text](url)`: keep their own syntax
+                    // (a cell cannot contain a bare `|`)
+                    if t == document::LinkType::WikiLink {
+                        events.push(Event::Html(format!("[[{}]]", url).into()));
+                    } else if t == document::LinkType::WikiLinkPiped {
+                        events.push(Event::Html(format!("[[{}\\|{}]]", url, text).into()));
+                    } else if !is_ref_url(&url) && text.eq_ignore_ascii_case(&url) {
                         events.push(Event::Start(Tag::Link {
                             title: title.into(),
                             link_type: pulldown_cmark::LinkType::Autolink,
